@@ -30,7 +30,6 @@ TABLE_SAFE = {
 for _q in ("XMLWriter.namespaces", "XMLSerializer.serialize"):
     TABLE_SAFE[(_q, "prefix")] = "a namespace prefix has to be an NCName for the document to be namespace-well-formed; escaping cannot repair a non-NCName prefix (prefixes come from bind()/generated nsN)"
 RAW_WRITES_OK = {
-    ("XMLWriter.text", "self.stream.write(text)"): "inside a CDATA section, entered only when ']]>' not in text",
     ("PrettyXMLSerializer.predicate", "writer.stream.write(object)"): "rdf:XMLLiteral whose value is a parsed xml.dom.minidom.Document: well-formed by construction",
 }
 
@@ -68,6 +67,34 @@ def run(repo: Repo, rep: Report) -> None:
     ok = any(isinstance(c, ast.Call) and norm(c.func) in ("_quoteLiteral", "_nt_row") for c in ast.walk(rowq))
     rep.ob("C05.a-nt-literal-escapes", nq, "_nq_row", "literals go through the N-Triples quoting", ok, "" if ok else "_nq_row no longer quotes literals with the N-Triples functions", node=rowq)
     rep.analysed("rdflib/plugins/serializers/nt.py:_quote_encode", "rdflib/plugins/serializers/nt.py:_quoteLiteral", "rdflib/plugins/serializers/nt.py:_nt_row", "rdflib/plugins/serializers/nquads.py:_nq_row")
+
+    # (a2) rows are assembled once, from a constant template
+    rep.rule("C05.a2-rows-from-constant-templates",
+             "in the N-Triples / N-Quads serializers every %-format template is a string constant (data never becomes part of a format string), "
+             "and serialised text is never post-edited with str.replace() outside the literal escape chain _quote_encode", floor=4)
+    for mod in (nt, nq):
+        for q, f in mod.functions():
+            if "." in q and isinstance(mod.defs.get(q.rsplit(".", 1)[0]), ast.FunctionDef):
+                continue
+            for n in own_nodes(f, include_nested=True):
+                if isinstance(n, ast.BinOp) and isinstance(n.op, ast.Mod):
+                    tf = None
+                    is_str_fmt = isinstance(n.left, (ast.Constant, ast.JoinedStr, ast.BinOp, ast.Name, ast.Attribute, ast.Call))
+                    if isinstance(n.left, ast.Constant) and not isinstance(n.left.value, str):
+                        continue
+                    ok = isinstance(n.left, ast.Constant) and isinstance(n.left.value, str)
+                    if not ok and isinstance(n.left, ast.Name):
+                        # a name bound only to string constants (or a conditional choice between constants)
+                        vals = [x.value for x in own_nodes(f, include_nested=True) if isinstance(x, ast.Assign) and any(isinstance(t, ast.Name) and t.id == n.left.id for t in x.targets)]
+                        def _const(v):
+                            return (isinstance(v, ast.Constant) and isinstance(v.value, str)) or (isinstance(v, ast.IfExp) and _const(v.body) and _const(v.orelse))
+                        ok = bool(vals) and all(_const(v) for v in vals)
+                    # a non-constant left operand of % is string formatting only if it is str-typed; arithmetic % does not occur in these modules
+                    rep.ob("C05.a2-rows-from-constant-templates", mod, q, "%s %% (...)" % norm(n.left)[:50], ok,
+                           "constant template" if ok else "the format template %s is built from data: a `%%` inside an IRI (percent-encoding) or literal is read as a conversion specifier" % norm(n.left)[:60], node=n)
+                if isinstance(n, ast.Call) and isinstance(n.func, ast.Attribute) and n.func.attr == "replace" and q != "_quote_encode":
+                    rep.ob("C05.a2-rows-from-constant-templates", mod, q, n, False,
+                           "serialised text is edited with .replace(): the pattern also matches inside literals / IRIs of the row", node=n)
 
     # ------------------------------------------------------------------ (b)
     rep.rule("C05.b-xml-escape-discipline",
@@ -200,7 +227,23 @@ def run(repo: Repo, rep: Report) -> None:
                             rep.ob("C05.b-xml-escape-discipline", mod, q, "%s  in  %s" % (norm(o), norm(c)[:70]), why is not None,
                                    why or "the value %s is interpolated into XML markup without escape()/quoteattr(): a value containing & < or a quote yields malformed XML" % norm(o), node=c)
                     else:
-                        why = classify(a) or {(x, canon(y)): r for (x, y), r in RAW_WRITES_OK.items()}.get((q, canon(c)))
+                        why = classify(a)
+                        if why is None:
+                            # a raw write is acceptable only inside a CDATA section: the statement is directly between the writes of the
+                            # constants "<![CDATA[" and "]]>" in its block, and the enclosing test excludes "]]>" from the text
+                            st_ = mod.parent.get(id(c))
+                            blk_owner = mod.parent.get(id(st_))
+                            for field in ("body", "orelse"):
+                                blk = getattr(blk_owner, field, None)
+                                if isinstance(blk, list) and st_ in blk:
+                                    i = blk.index(st_)
+                                    prev_ok = i > 0 and "<![CDATA[" in norm(blk[i - 1])
+                                    next_ok = i + 1 < len(blk) and "]]>" in norm(blk[i + 1])
+                                    guard_ok = isinstance(blk_owner, ast.If) and "']]>' not in" in norm(blk_owner.test)
+                                    if prev_ok and next_ok and guard_ok:
+                                        why = "inside a CDATA section entered only when ']]>' not in the text"
+                        if why is None:
+                            why = {(x, canon(y)): r for (x, y), r in RAW_WRITES_OK.items()}.get((q, canon(c)))
                         rep.ob("C05.b-xml-escape-discipline", mod, q, norm(c)[:90], why is not None,
                                why if why else "raw write of %s: not sanitised and not table-listed" % norm(a), node=c)
 
